@@ -51,6 +51,9 @@ CATALOGUE = (
     # things Python's own conversions accept but INDI number syntax does not
     + ["nan", "NaN", "inf", "-inf", "+Infinity", "infinity", "1_000", "1_0.5e1_0", "0x10", "0b1", "1e", "e5", "1.2.3", "--1", "1 ", " 1", "1:2:3:4", "1:", ":30", "1::30", "1j", "1e5L", "١٢٣"]
     + PY_INTERNAL
+    # a member of a vocabulary with one control character attached (attribute values keep it when written as a character reference)
+    + [w + sfx for w in ("Ok", "Idle", "rw", "ro", "OneOfMany", "AnyOfMany", "On", "Off", "Also", "Only", "Never", "Alert") for sfx in ("\n", "\r", "\t")]
+    + ["\n" + w for w in ("Ok", "rw", "OneOfMany", "On", "Also")]
 )
 
 
